@@ -3,7 +3,7 @@ from mc import enum
 
 EDGE_KINDS = ["pipe", "pipe3", "pipe_h", "pipe_rev", "pipe_zeta", "valve", "valve_closed", "pipe_vpi",
               "pipe_vpi_closed", "pipe_vpi2", "pump", "compressor", "fc", "fc_off", "pc", "pc_off", "hex", "pipe_oos"]
-LOAD_KINDS = ["sink", "source", "storage_pos", "storage_neg", "two_sinks", "sink_oos", "none", "nan"]
+LOAD_KINDS = ["sink", "source", "storage_pos", "storage_neg", "two_sinks", "sink_oos", "sink_oos_int", "none", "nan"]
 FEEDER_KINDS = ["one", "two_same", "second_other", "two_one_oos", "type_p", "three_interleaved"]
 LABEL_KINDS = ["range", "shift", "desc", "big", "rev"]
 FRICTION = ["nikuradse", "colebrook", "swamee-jain"]
@@ -41,6 +41,7 @@ def h_dims(n, edges, feeder, fluid, with_config=True, with_labels=True):
         dims.append(("friction", FRICTION))
         dims.append(("numba", [False, True]))
         dims.append(("method", ["constant", "automatic"]))
+        dims.append(("alpha", [1.0, 0.5]))    # constant damping factor of the Newton step
         if fluid != "water":
             dims.append(("fluid", [fluid, "hydrogen"]))
     return dims
@@ -99,6 +100,7 @@ def h_spec(case):
         ops.append({"op": "ext_grid", "id": "eg1", "junction": "j%d" % feeder, "p_bar": p0 + 0.4, "t_k": tf,
                     "in_service": False})
     late_ops = []
+    int_flags = []
     for j in range(n):
         if j == feeder:
             continue
@@ -119,6 +121,11 @@ def h_spec(case):
             late_ops.append({"op": "sink", "id": "ld%db" % j, "junction": jid, "mdot": m * 0.4, "scaling": 1.5})
         elif lk == "sink_oos":
             ops.append({"op": "sink", "id": "ld%d" % j, "junction": jid, "mdot": m, "in_service": False})
+        elif lk == "sink_oos_int":
+            # switched-off sink plus a second sink, the status column holds 0 / 1 instead of False / True
+            ops.append({"op": "sink", "id": "ld%d" % j, "junction": jid, "mdot": m, "in_service": False})
+            late_ops.append({"op": "sink", "id": "ld%dc" % j, "junction": jid, "mdot": m * 0.3})
+            int_flags.append(("sink", "in_service"))
         elif lk == "nan":
             ops.append({"op": "sink", "id": "ld%d" % j, "junction": jid, "mdot": float("nan")})
     ops.extend(late_ops)
@@ -158,4 +165,9 @@ def h_spec(case):
             raise KeyError(k)
     opts = {"friction_model": pt.get("friction", "nikuradse"), "use_numba": pt.get("numba", False),
             "nonlinear_method": pt.get("method", "constant")}
-    return {"fluid": fluid, "ops": ops}, opts
+    if pt.get("alpha", 1.0) != 1.0:
+        opts["alpha"] = pt["alpha"]
+    sp = {"fluid": fluid, "ops": ops}
+    if int_flags:
+        sp["int_flags"] = int_flags
+    return sp, opts
